@@ -167,6 +167,42 @@ def run(ctx):
         T.case(("wrap", scheme), bucket="direct", sample={"scheme": scheme, "wrapped": wrapped})
         if (scheme == "ws" and wrapped) or (scheme == "wss" and wrapped != [(0, "tls.test")]):
             T.fail("spec", {"scheme": scheme}, "wss wrapped before any byte is written, ws never", str(wrapped), {"site": "connect", "cls": "wrap-order"})
+    # 2b. redirects: every connection of a chain is wrapped (before its first byte, for its own host) exactly when the URL that led to it is
+    #     wss:// -- the Location's own scheme when it is an absolute URL, the scheme of the redirected request when it is a relative reference
+    #     (such a Location may as well be refused).  The client never decides by itself to continue a wss:// exchange in clear text.
+    def head(i):
+        d_ = bytes([i + 1] * 16)
+        return d_, b"HTTP/1.1 101 SP\r\nUpgrade: websocket\r\nConnection: Upgrade\r\nSec-WebSocket-Accept: " + accept_for(base64.b64encode(d_)) + b"\r\n\r\n"
+    for start, loc, schemes, hosts in (("wss://tls.test:8443/a", b"/moved", ["wss", "wss"], ["tls.test", "tls.test"]),
+                                      ("wss://tls.test/a", b"/moved", ["wss", "wss"], ["tls.test", "tls.test"]),
+                                      ("wss://tls.test:8443/a", b"wss://other.test:9443/x", ["wss", "wss"], ["tls.test", "other.test"]),
+                                      ("wss://tls.test:8443/a", b"ws://plain.test:8080/x", ["wss", "ws"], ["tls.test", "plain.test"]),
+                                      ("ws://plain.test:443/a", b"/moved", ["ws", "ws"], ["plain.test", "plain.test"]),
+                                      ("ws://plain.test/a", b"wss://tls.test:8443/x", ["ws", "wss"], ["plain.test", "tls.test"])):
+        draws = [head(0)[0], head(1)[0]]
+        net = FakeNet([{"addrs": ["A"], "script": [("D", b"HTTP/1.1 302 Found\r\nLocation: " + loc + b"\r\n\r\n")]}, {"addrs": ["A"], "script": [("D", head(1)[1])]}])
+        wrapped = []
+        saved = (_http.socket, os.urandom, _http._ssl_socket)
+        seq = list(draws)
+        _http.socket, os.urandom = net, (lambda n: seq.pop(0) if n == 16 and seq else saved[1](n))
+        _http._ssl_socket = lambda sock, sslopt, hostname: (wrapped.append((id(sock), len(sock.written), hostname)), sock)[1]
+        import websocket
+        outcome = "connected"
+        try:
+            ws = websocket.WebSocket()
+            ws.connect(start)
+        except Exception as e:
+            outcome = "raise:" + type(e).__name__
+        finally:
+            _http.socket, os.urandom, _http._ssl_socket = saved
+        socks = [s_ for s_ in net.all_socks() if getattr(s_, "address", None) is not None]
+        obs = [[(w[1], w[2]) for w in wrapped if w[0] == id(s_)] for s_ in socks]
+        want_ = [[(0, h)] if sch == "wss" else [] for sch, h in zip(schemes, hosts)][:len(socks)]
+        T.case(("redirect-wrap", start, loc), bucket="direct", sample={"start": start, "location": loc.decode(), "outcome": outcome, "wrapped": str(obs)})
+        if obs != want_ or (outcome == "connected" and len(socks) != 2):
+            T.fail("spec", {"kind": "redirect-wrap", "start": start, "location": loc.decode()}, f"connections wrapped as {want_} (or the redirect refused)", f"{outcome}, {obs}",
+                   {"site": "connect", "cls": "redirect-changes-transport-security"},
+                   what=f"{start} redirected with Location {loc.decode()}: the connections of the chain were wrapped as {obs}, the URLs call for {want_}")
     # 3. the verified decision model against the real _ssl_socket over the whole option space (coqc)
     tally_from(T, "tls_validate.py", [], "model-vs-impl(tls option space)", "_ssl_socket/_wrap_sni_socket", "C11_only_documented, C11_sweep")
     return T.result(
